@@ -40,6 +40,16 @@ Theorem C16_node_optimal_solution_is_closest_node_flow :
 Proof. exact node_mef_optimal_is_closest_node_flow. Qed.
 Print Assumptions C16_node_optimal_solution_is_closest_node_flow.
 
+(* the few-flow-values second phase: any solution of the second model reads back as a node flow whose distance to the node weights is
+   within the budget (1 + eps) * opt *)
+Theorem C16_node_few_values_within_budget :
+  forall (V : list node) (E : list PathEnc.edge) (fq sc : node -> Q) (ign : list node) (isint : bool),
+  NoDup V -> forall (subset : list PathEnc.edge) (eps opt : Q) (nvals : nat) (a : var -> Q), node_mef_domain V fq sc ign isint ->
+  sat a (encode_mef2 (node_mef_inst V E fq sc ign isint) subset eps opt nvals) ->
+  node_flow V E isint (fun v => xof a (nedge v)) /\ node_flow_cost V fq sc ign (fun v => xof a (nedge v)) <= (1 + eps) * opt.
+Proof. exact node_mef_few_values_within_budget. Qed.
+Print Assumptions C16_node_few_values_within_budget.
+
 (* non-vacuity: the chain 1 -> 2 -> 3 with node weights 10, 4, 10: the premises about the caller's input hold, the constant 10 is a
    node flow at distance 6, every node flow is at distance >= 6, and distance 6 forces the constant 10 (unique optimum) *)
 Example C16_node_premises_satisfiable :
